@@ -11,6 +11,7 @@ CONSTANTS
   TracerStyles = {"none"}
   Threadeds = {FALSE, TRUE}
   Givens = {}
+  Blockeds = {"none"}
   Flags = {}
 INVARIANT Restored
 INVARIANT Contained
